@@ -203,6 +203,33 @@ def run_unit(unit, ctx):
                 R.samples.append({"definition": K.brief_defn(defn), "point": pt, "cse": cse,
                                   "observed": got,
                                   "expected": {k: float(v[0]) for k, v in ref.items()}})
+        # the same State / Control objects used again after their buffers were written in place (a loop that
+        # keeps one input object and updates .data[i, 0] per sample)
+        try:
+            pt_r = dict(points[0])
+            st = m.State(**{s_: pt_r[s_] for s_ in defn["state"]})
+            ct = m.Control(**{c_: pt_r[c_] for c_ in defn["control"]})
+            m.model(float(pt_r[defn["dt"]]), st, ct)
+            lay_s, lay_c = monitors.names_of(st), monitors.names_of(ct)
+            for rep in range(2):
+                nxt = gen.point(rng, defn)
+                for i_, n_ in enumerate(lay_s):
+                    st.data[i_, 0] = nxt[n_]
+                for i_, n_ in enumerate(lay_c):
+                    ct.data[i_, 0] = nxt[n_]
+                nxt[defn["dt"]] = pt_r[defn["dt"]]
+                res = m.model(float(nxt[defn["dt"]]), st, ct)
+                R.stats.inc("reused_input_objects_written_in_place")
+                vs = monitors.check_named_values(monitors.vec_dict(res), orc.model(orc.env(nxt)), "model:value",
+                                                 f"Model.model ({tag}, input objects reused after an in-place write)",
+                                                 R.stats, tag="model")
+                for v in vs:
+                    v["witness"].update(defn=defn, point=nxt, cse=cse, reused_inputs=True)
+                R.add(vs)
+                R.evals += 1
+        except Exception as e:  # noqa: BLE001
+            R.add([K.V(K.exc_key("model", e), f"Model.model raised with reused input objects ({tag}): {K.exc_text(e)}",
+                       defn=defn, traceback=K.tb_text(e))])
     # CSE on/off agreement (both within tol of the oracle => within 2 tol of each other;
     # reported separately so the witness names the pair)
     for pi in range(len(points)):
